@@ -674,6 +674,10 @@ func (it *Interp) mapLookup(m *MapObj, k Value, kt types.Type) (Value, bool) {
 	if m == nil {
 		return nil, false
 	}
+	if b, ok := k.(Bytes); ok && b.Obj != nil && b.Obj.tag == "opaque" {
+		// display strings of symbolic values are only used to look up descriptions: not found
+		return nil, false
+	}
 	if ks, ok := it.keyString(k); ok {
 		if i, ok := m.idx[ks]; ok && !m.dead[i] {
 			return m.vals[i], true
